@@ -955,6 +955,8 @@ def discharge_by_guard(s):
             for (_, _, kind, payload) in b.defs().get(lr, []):
                 if kind == "assign" and payload["rv"]["k"] == "bin" and payload["rv"]["op"] == "Rem" and _same_value(b, payload["rv"]["a"][1], l):
                     return "guard: subtrahend is _ % minuend"
+                if kind == "assign" and payload["rv"]["k"] == "bin" and payload["rv"]["op"] == "Rem" and _same_value(b, payload["rv"]["a"][0], l):
+                    return "guard: subtrahend is minuend % _ (never larger than the minuend)"
     if s.kind == "assert" and s.what.startswith("Overflow:Mul"):
         # (x / p) * p <= x
         l, r = s.ops
